@@ -109,6 +109,10 @@ func buildState(tag, valueCls string, withContract bool, seed int64) *evState {
 					slot := evSlot(evPath(kind, evSrc, evDst, seq))
 					val, _ := rlp.EncodeToBytes(bytes.TrimLeft(evValue(otag, kind, seq, valueCls), "\x00"))
 					st.Update(crypto.Keccak256(slot.Bytes()), val)
+					// the same value also sits in the low-numbered slot whose number is the last byte of the derived slot
+					// (storage class suffixkey: a proof of THAT slot offered under a shortened key)
+					low := common.BytesToHash(slot.Bytes()[31:])
+					st.Update(crypto.Keccak256(low.Bytes()), val)
 				}
 			}
 		}
@@ -409,6 +413,13 @@ func driveEVMProof(t *testing.T, in, out string, seed int64) {
 			if str(cs["account"]) == "otheraddr" {
 				proof.StorageProof = state.proofFor(evOther, other).StorageProof
 			}
+		case "suffixkey":
+			// the key is only the last byte of the derived slot; the storage proof is a genuine proof of the slot that
+			// byte left-pads to, which holds the claimed value: a proof for another slot
+			low := common.BytesToHash(slot.Bytes()[31:])
+			sp := state.proofFor(account, low).StorageProof
+			sp[0].Key = hexutil.Encode(slot.Bytes()[31:])
+			proof.StorageProof = sp
 		case "keymismatch":
 			other := evSlot(evPath(pKind, evSrc, evDst, 2))
 			sp := state.proofFor(account, other).StorageProof
